@@ -5,7 +5,9 @@
         src / inline : generated Exo source through the real @proc (and `inline`), then the real `simplify`
         ir           : LoopIR built directly (distinct Syms sharing a name, shared srcinfo objects), real `simplify`
         unit:*       : index_start under explicit range environments, DoSimplify.map_e under explicit facts,
-                       str(a)==str(b), _fact_key(a)==_fact_key(b)
+                       str(a)==str(b), _fact_key(a)==_fact_key(b), constant_bound / add_loop_iter on / and % expressions
+        range:*      : every call the real simplify made to constant_bound / IndexRangeEnvironment.add_loop_iter on the
+                       generated programs (recorded by in-process wrappers) replayed in the model
         malformed    : divisors 0 / negative / non-literal, non-affine products (the front end must reject them:
                        they are outside the model's domain, guard 0 < c)
      every index / bound / size / condition expression of the result (with node types and srcinfo identities) is
@@ -150,7 +152,8 @@ def run(ck: common.Check):
                         "feature_counts": {"%s/%s" % k: v for k, v in sorted(dist.items())}}
     ck.log("search: %d valuations, %d trace entries compared" % (bf_vals, bf_entries))
     # a stream that collapsed is a harness failure, not a pass
-    for st, need in (("src", 20), ("ir", 20), ("unit:index_start", 20), ("unit:simp_e", 20)):
+    for st, need in (("src", 20), ("ir", 20), ("unit:index_start", 20), ("unit:simp_e", 20), ("unit:cbound", 20),
+                     ("range:loopiter", 20)):
         if ck.stream(st)["cases"] < need:
             ck.broken_obligation("stream-collapsed:" + st, "only %d cases" % ck.stream(st)["cases"])
 
